@@ -139,6 +139,11 @@ def _case(t):
         want = order[0][1]
         if f.out != ref[want]:
             got = [nl for nl in ref if f.out == ref[nl]]
+            if not got and suspects and style in ('cr', 'mix'):
+                # the output is none of the three reference outputs: not a wrong choice of terminator but the known mishandling of a
+                # lone CR inside a comment continuation / literal (same root-cause key as in the commutation clause)
+                probs.append(('lone-cr|' + '+'.join(sorted(suspects)), 'newlines=auto on a %s input: output equals none of the lf/crlf/cr reference outputs' % style))
+                continue
             probs.append(('auto-wrong|' + style, 'newlines=auto on a %s input (census lf/crlf/cr=%s) gives %s, majority is %s' % (style, c, got or 'something else', want)))
     return dict(skip=None, rel=rel, cfg=cfgname, probs=probs, stats=stats)
 
